@@ -109,6 +109,8 @@ type c08Stack struct {
 	Hooks *c08Hooks
 	// CacheSize is set for every case before Open (cache stacks pass it to physical.NewCache).
 	CacheSize int
+	// Relist is the number of cases of mode "relist" (0: a quarter of the scheduled cases).
+	Relist int
 	// Ground, set by Open for every case, reads the whole store with every cache emptied first.
 	Ground func(ctx context.Context) (map[string]string, []string, error)
 }
@@ -301,6 +303,11 @@ var (
 	// C13 (finding F4) and are not generated here.
 	c08Afters = []string{"", "a/", "b/", "d/", "x", "y", "r", "0", "c", "zz"}
 	c08Limits = []int{-1, 1, 2, 3}
+	// mode "relist" (repeated listings of one prefix inside one transaction) uses a denser key space, so that a
+	// page has entries before, inside and behind it. Every other mode keeps the six keys above.
+	c08RelistExtra = []string{"a/b", "a/u", "a/v", "a/w", "a/z", "b/d/z", "b/w", "q", "s"}
+	c08AllKeys     = append(append([]string{}, c08Keys...), c08RelistExtra...)
+	c08RelistLims  = []int{-1, 1, 2, 3, 4}
 )
 
 func c08RefList(m map[string]string, prefix, after string, limit int) []string {
@@ -531,9 +538,27 @@ type c08Case struct {
 	// then creates Sibling in that sub-folder, the transaction commits. At commit time the second listing
 	// would show the folder again, so the commit has to fail.
 	Fold *c08Fold `json:"fold,omitempty"`
+	// shape "relist" (mode "relist", all stacks): the first transaction of client 0 lists one prefix several times
+	// (same / different after, decreasing / increasing / equal coverage, unlimited and limited, its own writes in
+	// between); then another client changes entries of that prefix (inside or outside the pages seen); then the
+	// transaction writes and commits. The serial model decides whether the commit had to fail.
+	Relist *c08Relist `json:"relist,omitempty"`
 	// CacheSize (cache stacks): 0 = default; 128 gives every transaction a private LRU of 128/64 = 2 entries,
 	// fewer than the keys a transaction touches.
 	CacheSize int `json:"cache_size,omitempty"`
+}
+
+type c08Relist struct {
+	Prefix  string `json:"prefix"`
+	Pattern string `json:"pattern"`
+	// Directed: the schedule starts with the first Pre actions of client 0 (begin, listings, own writes), then
+	// the first ByN actions of client By (the interfering writes); everything after that is scheduled at random.
+	// Not directed: the whole case is scheduled at random.
+	Directed bool `json:"directed"`
+	Pre      int  `json:"pre"`
+	By       int  `json:"by"`
+	ByN      int  `json:"by_n"`
+	ByTxn    bool `json:"by_txn"`
 }
 
 type c08Fold struct {
@@ -582,7 +607,7 @@ func c08GenCase(rng *kit.Rand, st *c08Stack, id, mode string) *c08Case {
 	}
 	cs.Sticky = kit.Pick(rng, []int{0, 40, 75})
 	cs.Shape = "random"
-	if st.Gate != nil && rng.Chance(2, 5) {
+	if mode != "relist" && st.Gate != nil && rng.Chance(2, 5) {
 		cs.Shape = "burst"
 		cs.Hot = kit.Pick(rng, c08Keys)
 	}
@@ -717,6 +742,171 @@ func c08GenCase(rng *kit.Rand, st *c08Stack, id, mode string) *c08Case {
 			if !sc.Txn && sc.Client == nTxn {
 				sc.Acts = append([]c08Action{{Kind: "put", Key: f.Sibling, Val: "fold:" + f.Sibling}}, sc.Acts...)
 			}
+		}
+	}
+	return cs
+}
+
+// c08Under lists the keys of the relist key space below prefix and the entry names a listing of prefix can show.
+func c08Under(prefix string) (keys, entries []string) {
+	seen := map[string]bool{}
+	for _, k := range c08AllKeys {
+		if !strings.HasPrefix(k, prefix) {
+			continue
+		}
+		keys = append(keys, k)
+		rest := k[len(prefix):]
+		if i := strings.IndexByte(rest, '/'); i >= 0 {
+			rest = rest[:i+1]
+		}
+		if !seen[rest] {
+			seen[rest] = true
+			entries = append(entries, rest)
+		}
+	}
+	sort.Strings(entries)
+	return keys, entries
+}
+
+// c08GenRelist builds a case of mode "relist": a random case (as c08GenCase gives for a scheduled run, without
+// the raft burst prefix) whose client 0 first runs the repeated-listing transaction and whose client By first
+// runs the interfering writes.
+func c08GenRelist(rng *kit.Rand, st *c08Stack, id string) *c08Case {
+	cs := c08GenCase(rng, st, id, "relist")
+	cs.Shape = "relist"
+	for _, k := range c08RelistExtra {
+		if rng.Chance(3, 5) {
+			cs.Init[k] = "i:" + k
+		}
+	}
+	rl := &c08Relist{Prefix: kit.Pick(rng, []string{"a/", "a/", "a/", "", "b/"}), Directed: rng.Chance(3, 4)}
+	cs.Relist = rl
+	under, entries := c08Under(rl.Prefix)
+	for _, k := range under { // a well-filled prefix: pages have entries before, inside and behind them
+		if rng.Chance(1, 2) {
+			cs.Init[k] = "i:" + k
+		}
+	}
+	afters := append([]string{"0", "c", "uu", "zz"}, entries...)
+	after := func() string {
+		if rng.Chance(1, 2) {
+			return ""
+		}
+		return kit.Pick(rng, afters)
+	}
+	lim := func() int { return 1 + rng.Intn(4) }
+	page := func(a string, l int) c08Action { return c08Action{Kind: "page", Key: rl.Prefix, After: a, Limit: l} }
+	full := func(a string) c08Action {
+		if a == "" && rng.Chance(1, 2) {
+			return c08Action{Kind: "list", Key: rl.Prefix}
+		}
+		return page(a, -1)
+	}
+	anyList := func() c08Action {
+		if l := kit.Pick(rng, c08RelistLims); l > 0 {
+			return page(after(), l)
+		}
+		return full(after())
+	}
+	var lists []c08Action
+	a := after()
+	switch rng.Intn(7) {
+	case 0:
+		rl.Pattern = "unlimited-then-limited"
+		lists = []c08Action{full(a), page(a, lim())}
+	case 1:
+		rl.Pattern = "limited-then-unlimited"
+		lists = []c08Action{page(a, lim()), full(a)}
+	case 2:
+		rl.Pattern = "decreasing-limit"
+		k1 := 2 + rng.Intn(3)
+		lists = []c08Action{page(a, k1), page(a, 1+rng.Intn(k1-1))}
+	case 3:
+		rl.Pattern = "increasing-limit"
+		k1 := 2 + rng.Intn(3)
+		lists = []c08Action{page(a, 1+rng.Intn(k1-1)), page(a, k1)}
+	case 4:
+		rl.Pattern = "same-listing-twice"
+		l := anyList()
+		lists = []c08Action{l, l}
+	case 5:
+		rl.Pattern = "different-after"
+		l1, l2 := anyList(), anyList()
+		for l2.After == l1.After {
+			l2 = page(kit.Pick(rng, afters), kit.Pick(rng, c08RelistLims))
+		}
+		lists = []c08Action{l1, l2}
+	default:
+		rl.Pattern = "mixed"
+		for n := 3 + rng.Intn(2); n > 0; n-- {
+			lists = append(lists, anyList())
+		}
+	}
+	if rng.Chance(1, 3) {
+		lists = append(lists, anyList()) // e.g. decreasing, then wider again
+	}
+	nv := 0
+	own := map[string]bool{} // keys the repeated-listing transaction writes itself
+	write := func(who string, inside int) c08Action {
+		key := ""
+		for try := 0; try < 4 && (key == "" || (who == "rx" && own[key])); try++ {
+			// the interfering client mostly changes entries the transaction has seen in listings only (a
+			// backend may check the previous value of a key the transaction writes, which would hide
+			// a listing that is not checked)
+			key = kit.Pick(rng, c08AllKeys)
+			if rng.Intn(100) < inside {
+				key = kit.Pick(rng, under)
+			}
+		}
+		if who == "rl" {
+			own[key] = true
+		}
+		_, there := cs.Init[key]
+		if rng.Chance(1, 4) || (there && rng.Chance(1, 2)) {
+			return c08Action{Kind: "del", Key: key}
+		}
+		nv++
+		return c08Action{Kind: "put", Key: key, Val: fmt.Sprintf("%s.%d", who, nv)}
+	}
+	pre := []c08Action{{Kind: "begin"}}
+	if rng.Chance(1, 5) {
+		pre = append(pre, write("rl", 75)) // an own write before the first listing
+	}
+	for i, l := range lists {
+		if i > 0 && rng.Chance(2, 5) {
+			pre = append(pre, write("rl", 60))
+		}
+		pre = append(pre, l)
+	}
+	rl.Pre = len(pre)
+	if rng.Chance(1, 3) {
+		pre = append(pre, c08Action{Kind: "get", Key: kit.Pick(rng, c08AllKeys)})
+	}
+	pre = append(pre, write("rl", 25), c08Action{Kind: "commit"})
+	// the interfering client: a plain client, or the transaction of client 1
+	nTxn := 0
+	for _, sc := range cs.Scripts {
+		if sc.Txn {
+			nTxn++
+		}
+	}
+	var by []c08Action
+	for n := 1 + rng.Intn(2); n > 0; n-- {
+		by = append(by, write("rx", 85))
+	}
+	rl.By, rl.ByTxn = nTxn, rng.Chance(1, 3)
+	if rl.ByTxn {
+		rl.By = 1
+		by = append(append([]c08Action{{Kind: "begin"}}, by...), c08Action{Kind: "commit"})
+	}
+	rl.ByN = len(by)
+	for i := range cs.Scripts {
+		sc := &cs.Scripts[i]
+		switch sc.Client {
+		case 0:
+			sc.Acts = append(pre, sc.Acts...)
+		case rl.By:
+			sc.Acts = append(by, sc.Acts...)
 		}
 	}
 	return cs
@@ -1217,6 +1407,15 @@ func c08Execute(cs *c08Case, be c08Backend, st *c08Stack, rng *kit.Rand, free bo
 			ok = issue(t0)
 		}
 	}
+	if cs.Shape == "relist" && cs.Relist.Directed {
+		t0, by := clients[0], clients[cs.Relist.By]
+		for n := cs.Relist.Pre; n > 0 && ok; n-- {
+			ok = issue(t0)
+		}
+		for n := cs.Relist.ByN; n > 0 && ok; n-- {
+			ok = issue(by)
+		}
+	}
 	if gate != nil && cs.Shape == "burst" {
 		// shape "burst": park one write of every plain client, then let every transaction begin and
 		// read, then apply everything, then go on at random. (Still drawn from the case's PRNG.)
@@ -1402,7 +1601,7 @@ func c08ScanStore(ctx context.Context, be c08Store) (map[string]string, []string
 	if err := walk(""); err != nil {
 		return out, problems, err
 	}
-	for _, k := range c08Keys {
+	for _, k := range c08AllKeys {
 		if listed[k] {
 			continue
 		}
@@ -1497,7 +1696,7 @@ func c08Analyse(t testing.TB, r *kit.Result, st *c08Stack, run *c08Run, free boo
 		r.Count("quiescent_cache_vs_store_comparisons", 1)
 		if c08Enc(run.Ground) != c08Enc(run.Scan) {
 			var diff []string
-			for _, k := range c08Keys {
+			for _, k := range c08AllKeys {
 				cv, cf := run.Scan[k]
 				gv, gf := run.Ground[k]
 				if cf != gf || cv != gv {
@@ -1613,6 +1812,22 @@ func c08Analyse(t testing.TB, r *kit.Result, st *c08Stack, run *c08Run, free boo
 		r.Count("folder_collapse_"+kind+"_"+txns[ords[0]].Outcome, 1)
 	}
 
+	if cs.Shape == "relist" {
+		r.Count("relist_cases", 1)
+		r.Count("relist_pattern_"+cs.Relist.Pattern, 1)
+		if cs.Relist.Directed {
+			r.Count("relist_cases_directed", 1)
+		}
+		if cs.Relist.ByTxn {
+			r.Count("relist_cases_interference_by_txn", 1)
+		}
+		for _, o := range ords {
+			if ti := txns[o]; c08IsRelistTxn(cs, ti) {
+				r.Count("relist_txn_"+ti.Outcome, 1)
+			}
+		}
+	}
+
 	// ---- evidence: plain readers released inside the Commit of a transaction that wrote the key they read
 	for _, o := range ords {
 		ti := txns[o]
@@ -1705,7 +1920,7 @@ func c08Analyse(t testing.TB, r *kit.Result, st *c08Stack, run *c08Run, free boo
 		add(rc.Client, c08PIn{Kind: rc.Kind, Obs: rc.obs(), Label: rc.obs().String()}, rc.Call, rc.Ret)
 	}
 	if perKey {
-		for _, k := range c08Keys {
+		for _, k := range c08AllKeys {
 			var kops []porcupine.Operation
 			reads := 0
 			for i := range run.Recs {
@@ -1866,6 +2081,41 @@ func c08Analyse(t testing.TB, r *kit.Result, st *c08Stack, run *c08Run, free boo
 	}
 }
 
+// c08IsRelistTxn: ti is the repeated-listing transaction of a case of shape "relist" (the first transaction of client 0).
+func c08IsRelistTxn(cs *c08Case, ti *c08TxnInfo) bool {
+	return cs.Shape == "relist" && ti != nil && ti.Client == 0 && ti.Begin != nil && ti.Begin.Idx == 0
+}
+
+// c08HingesOnEarlierListing: every stale observation of the script is a listing of one (prefix, after), and the
+// last listing of that (prefix, after) in the script is not stale.
+func c08HingesOnEarlierListing(script []c08Obs, stale []bool) bool {
+	type pa struct{ p, a string }
+	var which *pa
+	for i, ob := range script {
+		if !stale[i] {
+			continue
+		}
+		if ob.Kind != "list" && ob.Kind != "page" {
+			return false
+		}
+		k := pa{ob.Key, ob.After}
+		if which != nil && *which != k {
+			return false
+		}
+		which = &k
+	}
+	if which == nil {
+		return false
+	}
+	for i := len(script) - 1; i >= 0; i-- {
+		ob := script[i]
+		if (ob.Kind == "list" || ob.Kind == "page") && ob.Key == which.p && ob.After == which.a {
+			return !stale[i]
+		}
+	}
+	return false
+}
+
 // c08ServedFromTxnCache is the signature of the cache-layer finding: a Get on an ended transaction
 // succeeds for a key the transaction itself last read or wrote (not deleted) while it was open, and
 // returns exactly that remembered value.
@@ -1945,9 +2195,13 @@ func c08Explain(r *kit.Result, st *c08Stack, run *c08Run, txns map[int]*c08TxnIn
 			// would the map have let this transaction commit here?
 			m := c08Copy(cur)
 			staleAt, staleWant := -1, ""
+			stale := make([]bool, len(e.Txn.Script))
 			for i, ob := range e.Txn.Script {
-				if ok, want := c08CheckObs(m, ob); !ok && staleAt < 0 {
-					staleAt, staleWant = i, want
+				if ok, want := c08CheckObs(m, ob); !ok {
+					stale[i] = true
+					if staleAt < 0 {
+						staleAt, staleWant = i, want
+					}
 				}
 			}
 			busy := false // did anybody else change the store between begin and commit?
@@ -1959,6 +2213,25 @@ func c08Explain(r *kit.Result, st *c08Stack, run *c08Run, txns map[int]*c08TxnIn
 			if busy {
 				r.Count("rw_txn_with_concurrent_effects", 1)
 				contended = true
+			}
+			if c08IsRelistTxn(cs, e.Txn) {
+				switch {
+				case staleAt >= 0:
+					r.Count("relist_commit_had_to_fail", 1)
+					if e.Txn.Outcome == "conflict" {
+						r.Count("relist_commit_had_to_fail_and_failed", 1)
+					}
+					if c08HingesOnEarlierListing(e.Txn.Script, stale) {
+						// the only stale observations are listings of one (prefix, after) and the last listing of
+						// that (prefix, after) is still current: the conflict rests on an earlier listing
+						r.Count("relist_conflict_rests_on_earlier_listing_of_same_prefix_and_after", 1)
+					}
+				case busy:
+					r.Count("relist_commit_allowed_under_interference", 1)
+					if e.Txn.Outcome == "committed" {
+						r.Count("relist_committed_under_interference", 1)
+					}
+				}
 			}
 			switch {
 			case staleAt >= 0 && e.Txn.Outcome == "conflict":
@@ -2114,7 +2387,12 @@ func c08RunCases(t *testing.T, r *kit.Result, st *c08Stack, mode string, n int, 
 			return
 		}
 		rng := kit.NewRand(seed, c08Stream(st.Name, mode)+uint64(i))
-		cs := c08GenCase(rng, st, id, mode)
+		var cs *c08Case
+		if mode == "relist" {
+			cs = c08GenRelist(rng, st, id)
+		} else {
+			cs = c08GenCase(rng, st, id, mode)
+		}
 		st.CacheSize = cs.CacheSize
 		be, cleanup := st.Open(t)
 		func() {
@@ -2214,7 +2492,7 @@ func c08LastStamp(run *c08Run) int64 {
 	return m
 }
 
-const c08Rule = "a case = one generated history (2-4 transactional clients of 1-2 transactions each, 1-3 plain clients, 6 keys in 2 prefixes, get/put/delete/list/paginated list, commit or rollback, misuse steps) under one generated interleaving of its calls; it is non-trivial when another client changed the store between the begin and the commit of a read-write transaction or a commit failed with a conflict; distinct = distinct (stack, schedule, observed results)"
+const c08Rule = "a case = one generated history (2-4 transactional clients of 1-2 transactions each, 1-3 plain clients, 6 keys in 2 prefixes, get/put/delete/list/paginated list, commit or rollback, misuse steps) under one generated interleaving of its calls; cases of mode relist (15 keys) additionally start with a transaction that lists one prefix 2-5 times (unlimited then limited, limited then unlimited, decreasing / increasing / equal limit, different after, own writes in between), after which a plain client or another transaction changes entries of that prefix inside or outside the pages seen, before the transaction writes and commits; it is non-trivial when another client changed the store between the begin and the commit of a read-write transaction or a commit failed with a conflict; distinct = distinct (stack, schedule, observed results)"
 
 func c08RunStack(t *testing.T, name string, st *c08Stack, sched, free int, extra func(r *kit.Result, sched, free int)) {
 	seed := kit.Seed(8)
@@ -2224,9 +2502,29 @@ func c08RunStack(t *testing.T, name string, st *c08Stack, sched, free int, extra
 		// race-detector build: only the free-running cases (several goroutines really inside the code at once)
 		sched, free = 0, free/4
 	}
+	relist := st.Relist
+	if relist == 0 {
+		relist = sched / 4
+	}
+	if sched == 0 {
+		relist = 0
+	}
 	c08RunCases(t, r, st, "sched", sched, seed)
+	c08RunCases(t, r, st, "relist", relist, seed)
 	c08RunCases(t, r, st, "free", free, seed)
 	c08Require(r, sched, free)
+	if relist > 0 {
+		_, shards := kit.Shard()
+		n := int64(relist / shards)
+		r.Require("relist_cases", n)
+		r.Require("relist_cases_directed", n/2)
+		r.Require("relist_commit_had_to_fail_and_failed", n/8)
+		r.Require("relist_committed_under_interference", n/20)
+		r.Require("relist_conflict_rests_on_earlier_listing_of_same_prefix_and_after", n/40)
+		for _, p := range []string{"unlimited-then-limited", "limited-then-unlimited", "decreasing-limit", "increasing-limit", "same-listing-twice", "different-after", "mixed"} {
+			r.Require("relist_pattern_"+p, n/20)
+		}
+	}
 	if st.Hooks != nil && sched > 0 {
 		_, shards := kit.Shard()
 		n := int64(sched / shards)
